@@ -40,6 +40,12 @@ CS = [r'class\s+char_subset\b']
 F('char_subset__add_range', r'constexpr\s+char_subset&\s+add_range\(char_range r\)', 'struct char_subset* char_subset__add_range(struct char_subset* self, struct regex__char_range r)', scope=CS,
   rules=[S(r'\bdata\.set\(', 'cbitset_set(&self->data, ', name='R4:data.set'), S(r'return \*this;', 'return self;', name='R4:this')])
 
+# R14: the functors of the regex grammar that compute (the others forward to the builder): digit value, decimal accumulation, digit as a literal
+F('vx_regex_digit_value', r'constexpr custom_term regex_digit_09\("regex_digit_09", \[\]\(auto sv\)', 'size32_t vx_regex_digit_value(struct vx_sv sv)', rules=SV)
+F('vx_regex_number_step', r'number\(number, regex_digit_09\) >= \[\]\(size32_t n, size32_t x\)', 'size32_t vx_regex_number_step(size32_t n, size32_t x)')
+F('vx_regex_digit_primary', r'primary\(regex_digit_09\) >>= \[\]\(auto& ctx, size32_t number\)', 'int vx_regex_digit_primary(size32_t number)',
+  rules=[S(r'\bctx\.primary_char\(', 'vx_ctx_primary_char(', name='R13:builder call (abstract)')])
+
 PRELUDE = r'''
 int vx_thrown;
 struct vx_sv { const char* p; size_t n; };
@@ -49,6 +55,8 @@ struct regex__char_range { char start; char end; };
 ''' + SX.cbitset_struct(words=4) + r'''
 struct char_subset { struct cbitset data; };
 size_t g_k;
+int g_pc_calls; char g_pc_arg;
+static inline int vx_ctx_primary_char(char c) { g_pc_calls++; g_pc_arg = c; return 0; }
 #define VX_HEX(c) (((c) >= 48 && (c) <= 57) || ((c) >= 97 && (c) <= 102) || ((c) >= 65 && (c) <= 70))
 #define VX_HEXVAL(c) ((c) <= 57 ? (c) - 48 : ((c) <= 70 ? (c) - 65 + 10 : (c) - 97 + 10))
 #define VX_BIT(b, i) (((b).data[(i) / 64] >> ((i) % 64)) & 1)
@@ -82,3 +90,25 @@ int main() {
 for _f in UNIT.fns:
     if _f.name in ('regex__hex_digits_to_char', 'hex__dd'):
         _f.twin = _twin_hex
+
+
+def _twin_number(o):
+    v = _N.trace_vals(o, 'h_vx_regex_number_step')
+    n = _N.to_int(v.get('n'), 1) % 10 or 1
+    x = _N.to_int(v.get('x'), 2) % 10
+    if n == x:
+        x = (x + 1) % 10
+    return _N.TWIN_HEAD + """#include <string>
+static constexpr char pat[] = "a{%d%d}";
+constexpr regex::expr<pat> r;
+int main() {
+    int bad = 0;
+    for (int k = 0; k <= 99; ++k) {
+        bool got = r.match(buffers::string_buffer(std::string(k, 'a'))), want = (k == %d);
+        if (got != want) { ++bad; std::printf("a{%d%d} %%s a string of %%d a's\\n", got ? "accepts" : "rejects", k); }
+    }
+    return bad ? 1 : 0;
+}""" % (n, x, n * 10 + x, n, x)
+
+
+UNIT.fn('vx_regex_number_step').twin = _twin_number
